@@ -253,6 +253,7 @@ func runC04(c *Ctx) {
 							}
 						}
 						cli := &mqtt.BaseClient{Transport: s.Conn}
+						var hSelf mqtt.Handler
 						h := mqtt.HandlerFunc(func(msg *mqtt.Message) {
 							tag := strings.TrimPrefix(msg.Topic, "t/")
 							if len(msg.Payload) > 0 && string(msg.Payload) != tag {
@@ -260,10 +261,14 @@ func runC04(c *Ctx) {
 							}
 							tl = append(tl, "H+"+tag)
 							vrt.Event(unsafe.Pointer(&tl), vrt.HashString(tag))
+							// a handler may call back into its client (re-register itself, look at the connection)
+							cli.Handle(hSelf)
+							_, _, _ = cli.Done(), cli.Err(), cli.Stats()
 							vrt.Yield("in handler")
 							tl = append(tl, "H-"+tag)
 							vrt.Event(unsafe.Pointer(&tl), 1)
 						})
+						hSelf = h
 						if m.handler == 0 {
 							cli.Handle(h)
 						}
